@@ -186,7 +186,13 @@ where
                 // We don't have a valid connection - we must reconnect.
                 if src.inner.is_none() {
                     warn!("Reconnecting");
-                    match inner::connect(&src.config).await {
+                    // The terminal may also stall while we (re-)register, so
+                    // the timeout applies to the reconnection too.
+                    let connected = match tokio::time::timeout(timeout, inner::connect(&src.config)).await {
+                        Ok(connected) => connected,
+                        Err(_) => Err(Error::new(ErrorKind::TimedOut, "Timeout while reconnecting").into()),
+                    };
+                    match connected {
                         Ok(inner) => src.inner = Some(inner),
                         Err(err) => {
                             warn!("Failed to reconnect: {err:?}");
